@@ -47,7 +47,7 @@ type Action struct {
 	Enabled  func(m *model.State, aux map[string]int) bool
 	// Count: aux counter incremented when the action is taken (for caps like "at most one governance change")
 	Count string
-	// Sim: transactions that are only simulated (gas estimation) before the block of this action; nothing
+	// Sim: transactions that are only simulated (gas estimation) right after the block of this action; nothing
 	// of a simulation may persist, the model ignores them
 	Sim func(m *model.State) []model.Tx
 	// PrefixOnly letters build the scenario's initial state; the search does not use them
@@ -96,6 +96,9 @@ type Exec struct {
 	TxEvents               [][]abci.Event
 	// PostProcess may re-tag or filter the discrepancies of one action (scenario-specific attribution)
 	PostProcess func(e *Exec, discs []Disc) []Disc
+	// SkipVisitSteps: number of coming actions after which Visit is not run (scenarios whose long
+	// prefix only builds the state of interest)
+	SkipVisitSteps int
 	// InitDiscs: what Visit reported on the genesis state
 	InitDiscs []Disc
 	// Annotate may add discrete facts to a discrepancy (for known-finding signatures)
@@ -336,7 +339,7 @@ func (e *Exec) endBlock() (hash []byte, discs []Disc, halted bool) {
 		return nil, []Disc{{Kind: "panic:Commit", Detail: "Commit panicked: " + firstLine(pan), Sig: map[string]string{"phase": "Commit", "panic": firstLine(pan)}}}, true
 	}
 	// per-block observer (keeps its observations in M.Obs); runs after every committed block
-	if e.Visit != nil {
+	if e.Visit != nil && e.SkipVisitSteps == 0 {
 		discs = append(discs, e.Visit(e)...)
 	}
 	return h, discs, false
@@ -346,6 +349,11 @@ func (e *Exec) endBlock() (hash []byte, discs []Disc, halted bool) {
 func (e *Exec) Run(a *Action, oracle bool) (StepObs, []Disc) {
 	obs := StepObs{Action: a.Name}
 	var discs []Disc
+	defer func() {
+		if e.SkipVisitSteps > 0 {
+			e.SkipVisitSteps--
+		}
+	}()
 	if a.Count != "" {
 		e.Aux[a.Count]++
 	}
@@ -378,22 +386,24 @@ func (e *Exec) Run(a *Action, oracle bool) (StepObs, []Disc) {
 		obs.AppHash = fmt.Sprintf("%X", h)
 		return true
 	}
-	if a.Sim != nil {
-		for _, tx := range a.Sim(e.M) {
-			bz, err := e.W.Sign(BuildTx(e.W, tx))
-			if err != nil {
-				panic(fmt.Sprintf("harness: cannot sign %+v: %v", tx, err))
-			}
-			ok, log := e.W.Simulate(bz)
-			obs.Txs = append(obs.Txs, TxObs{Tx: tx, Pred: "simulated", Log: firstLine(log), Code: map[bool]uint32{true: 0, false: 1}[ok]})
-		}
-	}
 	if a.Gov == nil {
 		var txs []model.Tx
 		if a.Txs != nil {
 			txs = a.Txs(e.M)
 		}
-		block(a.Dt, txs)
+		ok := block(a.Dt, txs)
+		// simulations run against the check state, which the commit above has just rebuilt from the
+		// committed state (after a restore-in-place it would otherwise be whatever the instance last had)
+		if ok && a.Sim != nil {
+			for _, tx := range a.Sim(e.M) {
+				bz, err := e.W.Sign(BuildTx(e.W, tx))
+				if err != nil {
+					panic(fmt.Sprintf("harness: cannot sign %+v: %v", tx, err))
+				}
+				sok, log := e.W.Simulate(bz)
+				obs.Txs = append(obs.Txs, TxObs{Tx: tx, Pred: "simulated", Log: firstLine(log), Code: map[bool]uint32{true: 0, false: 1}[sok]})
+			}
+		}
 	} else {
 		e.runGov(a, &obs, &discs)
 	}
